@@ -126,6 +126,7 @@ def solo(tidx, kind, nevals):
 def warm_up(warm):
     import celpy
     repo.memoise_lark()
+    sched.interpose_library_locks()     # before the snapshot: the library's own locks (none on the pinned tree) become cooperative
     for k in warm:
         celpy.Environment(runner_class=celpy.CompiledRunner if k == "C" else celpy.InterpretedRunner)
 
@@ -432,7 +433,8 @@ def run(ctx):
                 "configuration (runner mix x cold/warm parser state); each execution is non-trivial (its result vectors are compared with the solo vectors)")
     ctx.assumptions = ["switch points are Python line events inside the library and generated code (opcode events in the listed functions for the opcode configuration); C-level callee internals are atomic under the GIL",
                        "2-3 threads, two evaluations each; preemption bound as stated per configuration; granularity shallow:K = function entries with fewer than K library frames beneath them",
-                       "lark.Lark construction memoised by the harness (the check-then-create logic stays the library's own)"]
+                       "lark.Lark construction memoised by the harness (the check-then-create logic stays the library's own)",
+                       "locks held at module / class level of the library (and locks it creates through its own `threading` name) are replaced by cooperative ones: a failed acquisition hands the baton on (forced switch, no preemption cost); all threads blocked = deadlock"]
     ctx.coverage_extra.update({
         "states": total_trans, "transitions": total_trans, "schedules": total_exec,
         "traces_validated_against_impl": total_exec + validated,
